@@ -222,19 +222,22 @@ NTree(s) == LET r == NParse(s) IN IF r.ok THEN r.tree ELSE NERR
 \* ---- values
 TQ(q) == [op |-> "q", n |-> q.n, d |-> q.d, e |-> q.e, a |-> <<>>]
 TOp(op, idx, args) == [op |-> op, n |-> idx, d |-> 1, e |-> 0, a |-> args]
-\* st: "ok" | "mismatch" (operands of + or - differ in dimension: the call must raise)
+\* st: "ok" | "mismatch" / "mismatch_inv" (operands of + or - differ in dimension: the call must raise)
 \*     | "unspec" (outside what the documentation defines) | "over" (model integers too small)
 V(st, dim, isq, q, t) == [st |-> st, dim |-> dim, isq |-> isq, q |-> q, t |-> t]
 VQ(q, dim) == IF IsBad(q) THEN V("over", dim, FALSE, BAD, TQ(QZero)) ELSE V("ok", dim, TRUE, q, TQ(q))
 VT(t, dim) == V("ok", dim, FALSE, BAD, t)
 VSt(st) == V(st, NoDim, FALSE, BAD, TQ(QZero))
 Worst(a, b) == IF "unspec" \in {a, b} THEN "unspec" ELSE IF "over" \in {a, b} THEN "over"
-               ELSE IF "mismatch" \in {a, b} THEN "mismatch" ELSE "ok"
+               ELSE IF "mismatch" \in {a, b} THEN "mismatch"
+               ELSE IF "mismatch_inv" \in {a, b} THEN "mismatch_inv" ELSE "ok"
 
 VNeg(x) == IF x.st # "ok" THEN x ELSE IF x.isq THEN VQ(QNeg(x.q), x.dim) ELSE VT(TOp("neg", 0, <<x.t>>), x.dim)
 VAddSub(op, x, y) ==
   IF x.st # "ok" \/ y.st # "ok" THEN VSt(Worst(x.st, y.st))
-  ELSE IF x.dim # y.dim THEN VSt("mismatch")
+  \* "mismatch_inv": the dimensions are inverse to each other (m and 1/m) - still different
+  \* dimensions, named apart because the units module converts between them (see C04)
+  ELSE IF x.dim # y.dim THEN VSt(IF x.dim = DScale(y.dim, -1) THEN "mismatch_inv" ELSE "mismatch")
   ELSE IF x.isq /\ y.isq THEN VQ(IF op = "+" THEN QAdd(x.q, y.q) ELSE QSub(x.q, y.q), x.dim)
   ELSE VT(TOp(IF op = "+" THEN "add" ELSE "sub", 0, <<x.t, y.t>>), x.dim)
 VMulDiv(op, x, y) ==
@@ -295,7 +298,8 @@ VIn(v, us) ==
 NClass(s) == LET r == NParse(s) IN
   IF ~r.ok THEN "ill" ELSE
   LET v == NEval(r.tree) IN
-  CASE v.st = "ok" -> "value" [] v.st = "mismatch" -> "raise" [] v.st = "over" -> "over" [] OTHER -> "unspecified"
+  CASE v.st = "ok" -> "value" [] v.st \in {"mismatch", "mismatch_inv"} -> "raise" [] v.st = "over" -> "over"
+    [] OTHER -> "unspecified"
 
 (***************************************************************************)
 (* 5. Logical expressions - ideal                                          *)
@@ -547,7 +551,8 @@ MCmp(op, x, y) ==
   IF x.r = "E" THEN x ELSE IF y.r = "E" THEN y
   ELSE IF x.num /\ y.num THEN
        LET m == MCmpNum(op, AT(x.tok), AT(y.tok)) IN [m EXCEPT !.dev = m.dev \cup x.dev \cup y.dev]
-  ELSE IF x.num THEN MErr(x.dev \cup y.dev)                 \* NumberType against a boolean: NameError / bool()
+  ELSE IF x.num THEN (IF AT(x.tok).kind = "lit" THEN MR("U", ResType(op), x.dev \cup y.dev)   \* bool('300')
+                      ELSE MErr(x.dev \cup y.dev))          \* node against a boolean: NameError
   ELSE IF y.num THEN MR("U", "py", x.dev \cup y.dev)        \* BooleanType.__eq__(number): value comparison
   ELSE IF op \notin {"==", "!="} THEN MErr(x.dev \cup y.dev) \* BooleanType has no ordering
   ELSE IF x.pt = "np" \/ y.pt = "np" THEN MR("U", "py", x.dev \cup y.dev \cup {"eq_of_numeric_eq"})
